@@ -605,6 +605,7 @@ pub open spec fn p_sel(q: Seq<Option<u8>>) -> Option<(Ast, int)> {
 // ------------------------------------------------------------------------------------------------ src/input_context_extractor.rs
 pub mod icx {
 use super::*;
+use std::result::Result;
 broadcast use {rdl::group_advance, ls::axiom_text_of, ls::axiom_str_bytes_empty};
 //@@ item src/input_context_extractor.rs :: enum Type
 //@@ rewrite pub_struct
@@ -621,14 +622,45 @@ impl Get for InputContextExtractor {
     #[verifier::external_body]
     fn get(&self, value: &Context) -> Option<JsonValue> { unimplemented!() }
 }
-// the table of the seven selector names (InputContextExtractor::from_name: a match on string literals, which the verifier
-// does not interpret — ASSUMED to be a function of the normalised name; the repository's own unit tests pin each name)
-pub uninterp spec fn ic_kind(name: Seq<char>) -> Option<int>;
+// the table of the seven selector names, as documented in the selection help: InputContextExtractor::from_name (real body
+// verified below: a `match` on string literals compares the texts)
+pub open spec fn ic_kind(name: Seq<char>) -> Option<int> {
+    if name == "index"@ { Some(0int) }
+    else if name == "index-in-file"@ { Some(1int) }
+    else if name == "file-name"@ { Some(2int) }
+    else if name == "started-at-line-number"@ { Some(3int) }
+    else if name == "ended-at-line-number"@ { Some(4int) }
+    else if name == "started-at-char-number"@ { Some(5int) }
+    else if name == "ended-at-char-number"@ { Some(6int) }
+    else { None }
+}
+pub mod vsd {
+use vstd::prelude::*;
+#[verifier::external_body]
+pub fn as_str_of(s: &String) -> (r: &str) ensures r@ == s@ { unimplemented!() }
+// two string slices with the same characters are the same value (a `match` on string literals compares values)
+pub broadcast axiom fn axiom_str_ext(a: &str, b: &str) ensures (#[trigger] a@ == #[trigger] b@) ==> a == b;
+}
 impl InputContextExtractor {
-    #[verifier::external_body]
-    pub fn from_name(name: String) -> (r: std::result::Result<Self, InputContextExtractorParseError>)
-        ensures r is Ok <==> ic_kind(name@) is Some, r is Ok ==> type_code(r->Ok_0.extration) == ic_kind(name@)->0,
-    { unimplemented!() }
+//@@ fn gram.ictx.from_name = src/input_context_extractor.rs :: impl InputContextExtractor :: fn from_name
+//@@ safety C17 C18 C13
+//@@ ret r
+//@@ rewrite as_str_of
+//@@ header
+        ensures
+            // exactly the seven documented names are accepted, each selecting its own field of the input context
+            r is Ok <==> ic_kind(name@) is Some, // @obl GRAM.ictx.names : C17 C18
+            r is Ok ==> type_code(r->Ok_0.extration) == ic_kind(name@)->0, // @obl GRAM.ictx.kind : C17 C13
+//@@ body-start
+        broadcast use vsd::axiom_str_ext;
+        proof {
+            reveal_strlit("index"); reveal_strlit("index-in-file"); reveal_strlit("file-name");
+            reveal_strlit("started-at-line-number"); reveal_strlit("ended-at-line-number");
+            reveal_strlit("started-at-char-number"); reveal_strlit("ended-at-char-number");
+            assert("started-at-line-number"@[11] == 'l' && "started-at-char-number"@[11] == 'c');
+            assert("ended-at-line-number"@[9] == 'l' && "ended-at-char-number"@[9] == 'c');
+        }
+//@@ endfn
 }
 // a selector name is case-insensitive and `_` may be written for `-`
 pub open spec fn ic_norm(b: u8) -> u8 { if 0x61u8 <= b <= 0x7au8 { b } else if 0x41u8 <= b <= 0x5au8 { (b + 0x20u8) as u8 } else { 0x2du8 } }
